@@ -253,7 +253,7 @@ def _mk_c10(tier, seed):
 
 def _mk_c16(tier, seed):
     import scenarios
-    return scenarios.c16_jobs(tier, seed)
+    return scenarios.c16_jobs(tier, seed) + scenarios.c18q_jobs(tier, seed)
 
 
 def _mk_c01(tier, seed):
